@@ -922,6 +922,7 @@ int main(int argc, char **argv)
 	batch_size = 64;
 	const char *model = NULL, *outp = NULL, *script = NULL, *stats = NULL;
 	int net_mode = 0;
+	unsigned skew = 0;
 	int threads = 2, ckpt = 0, policy = 0;
 	unsigned gvt_period = 0, num = 1, den = 4;
 	unsigned long budget = 4000000, seed = 1, prng = 12345;
@@ -949,6 +950,7 @@ int main(int argc, char **argv)
 		else if(!strcmp(a, "--stats")) stats = v, ++i;
 		else if(!strcmp(a, "--batch")) batch_size = (unsigned)atoi(v), ++i;
 		else if(!strcmp(a, "--ranks")) dist_ranks = atoi(v), ++i;
+		else if(!strcmp(a, "--skew")) skew = (unsigned)atoi(v), ++i;
 		else if(!strcmp(a, "--net")) net_mode = atoi(v), ++i;
 		else die("unknown argument");
 	}
@@ -967,9 +969,9 @@ int main(int argc, char **argv)
 
 	fprintf(out,
 	    "{\"n\":0,\"thr\":-1,\"e\":\"Config\",\"serial\":%d,\"threads\":%d,\"ckpt\":%d,\"period\":%u,\"seed\":%lu,"
-	    "\"prng\":%lu,\"term\":%ld,\"nlps\":%d,\"batch\":%u,\"nev\":%d,\"sw\":\"%u/%u\",\"policy\":%d,\"stopat\":%ld,\"ranks\":%d,\"net\":%d}\n",
+	    "\"prng\":%lu,\"term\":%ld,\"nlps\":%d,\"batch\":%u,\"nev\":%d,\"sw\":\"%u/%u\",\"policy\":%d,\"stopat\":%ld,\"ranks\":%d,\"net\":%d,\"skew\":%u}\n",
 	    serial_mode, threads, ckpt, gvt_period, seed, prng, term_time > 0 ? (long)term_time : INF_T, M.nlps, batch_size, never_end, num, den, policy, stop_at,
-	    dist_ranks, net_mode);
+	    dist_ranks, net_mode, skew);
 
 	vs_set_hang_cb(on_hang);
 	vs_init(seed, num, den, budget, policy);
@@ -982,6 +984,8 @@ int main(int argc, char **argv)
 #endif
 	if(script)
 		vs_load_script(script);
+	if(skew)
+		vs_set_skew(VP_TPHASE, skew); /* let threads drift apart at the GVT thread-phase transitions */
 	int r = run_all(threads, ckpt, gvt_period, term_time, stats, prng);
 	if(stats)
 		dump_stats(stats);
